@@ -50,6 +50,7 @@ const (
 	KBlocked = 2
 	KStart   = 3
 	KYield   = 4 // runtime.Gosched in the code under test
+	KSelect  = 5 // choice among several ready cases of a select (to = the choice)
 )
 
 const (
@@ -81,6 +82,7 @@ type task struct {
 	blockedAt int64 // value of syncEpoch when the task last found its primitive unavailable
 	prio      int64 // PCT
 	rdv       int32 // woken for a rendezvous on an unbuffered channel (runs one statement without the token)
+	selCase   int32 // ... out of Select: the case it was matched on
 	rfd, wfd  int   // pipe hand-over
 }
 
